@@ -1201,6 +1201,11 @@ func newOfficialRoaringIterator(data []byte) (*officialRoaringIterator, error) {
 	r.keys = int64(keys)
 	r.headers = data[headerOffset:offsetOffset]
 	// note: offsets are only actually used with the no-run headers.
+	if !r.haveRuns || keys >= officialNoOffsetThreshold {
+		if offsetOffset+int(keys)*4 > len(data) {
+			return nil, fmt.Errorf("insufficient data for offsets: want %d bytes, got %d", offsetOffset+int(keys)*4, len(data))
+		}
+	}
 	if r.haveRuns {
 		// start out pointed at where the offsets would have been; with at
 		// least officialNoOffsetThreshold containers they are really there.
@@ -1257,11 +1262,20 @@ func newRoaringIterator(data []byte) (roaringIterator, error) {
 	}
 	// Verify the first two bytes are a valid MagicNumber, and second two bytes match current storageVersion.
 	fileMagic := uint32(binary.LittleEndian.Uint16(data[0:2]))
+	// (return a nil interface, not a nil pointer in an interface, on error)
 	switch fileMagic {
 	case serialCookie, serialCookieNoRunContainer:
-		return newOfficialRoaringIterator(data)
+		if itr, err := newOfficialRoaringIterator(data); err == nil {
+			return itr, nil
+		} else {
+			return nil, err
+		}
 	case MagicNumber:
-		return newPilosaRoaringIterator(data)
+		if itr, err := newPilosaRoaringIterator(data); err == nil {
+			return itr, nil
+		} else {
+			return nil, err
+		}
 	}
 	return nil, fmt.Errorf("unknown roaring magic number %d", fileMagic)
 }
@@ -1293,14 +1307,28 @@ func (r *pilosaRoaringIterator) Next() (key uint64, cType byte, n int, length in
 	r.currentType = byte(binary.LittleEndian.Uint16(header[8:10]))
 	r.currentN = int(binary.LittleEndian.Uint16(header[10:12])) + 1
 	r.currentDataOffset = binary.LittleEndian.Uint32(r.offsets[r.currentIdx*4:])
+	if r.currentType != containerArray && r.currentType != containerBitmap && r.currentType != containerRun {
+		r.Done(fmt.Errorf("container %d/%d, key %d, has unknown type %d", r.currentIdx, r.keys, r.currentKey, r.currentType))
+		return r.Current()
+	}
 
 	// a run container keeps its data after an initial 2 byte length header
 	var runCount uint16
 	if r.currentType == containerRun {
+		if uint64(r.currentDataOffset)+runCountHeaderSize > uint64(len(r.data)) {
+			r.Done(fmt.Errorf("container %d/%d, key %d, had offset %d, maximum %d",
+				r.currentIdx, r.keys, r.currentKey, r.currentDataOffset, len(r.data)))
+			return r.Current()
+		}
 		runCount = binary.LittleEndian.Uint16(r.data[r.currentDataOffset : r.currentDataOffset+runCountHeaderSize])
 		r.currentDataOffset += 2
+		if runCount == 0 {
+			r.Done(fmt.Errorf("container %d/%d, key %d, is a run container without runs", r.currentIdx, r.keys, r.currentKey))
+			return r.Current()
+		}
 	}
-	if r.currentDataOffset > uint32(len(r.data)) || r.currentDataOffset < headerBaseSize {
+	// container data lives after the header and the offsets
+	if r.currentDataOffset >= uint32(len(r.data)) || int64(r.currentDataOffset) < headerBaseSize+r.keys*16 {
 		r.Done(fmt.Errorf("container %d/%d, key %d, had offset %d, maximum %d",
 			r.currentIdx, r.keys, r.currentKey, r.currentDataOffset, len(r.data)))
 		return r.Current()
@@ -1350,10 +1378,19 @@ func (r *officialRoaringIterator) Next() (key uint64, cType byte, n int, length 
 	// a run container keeps its data after an initial 2 byte length header
 	var runCount uint16
 	if r.currentType == containerRun {
+		if uint64(r.currentDataOffset)+runCountHeaderSize > uint64(len(r.data)) {
+			r.Done(fmt.Errorf("container %d/%d, key %d, had offset %d, maximum %d",
+				r.currentIdx, r.keys, r.currentKey, r.currentDataOffset, len(r.data)))
+			return r.Current()
+		}
 		runCount = binary.LittleEndian.Uint16(r.data[r.currentDataOffset : r.currentDataOffset+runCountHeaderSize])
 		r.currentDataOffset += 2
+		if runCount == 0 {
+			r.Done(fmt.Errorf("container %d/%d, key %d, is a run container without runs", r.currentIdx, r.keys, r.currentKey))
+			return r.Current()
+		}
 	}
-	if r.currentDataOffset > uint32(len(r.data)) || r.currentDataOffset < headerBaseSize {
+	if r.currentDataOffset >= uint32(len(r.data)) || r.currentDataOffset < headerBaseSize {
 		r.Done(fmt.Errorf("container %d/%d, key %d, had offset %d, maximum %d",
 			r.currentIdx, r.keys, r.currentKey, r.currentDataOffset, len(r.data)))
 		return r.Current()
@@ -1368,6 +1405,11 @@ func (r *officialRoaringIterator) Next() (key uint64, cType byte, n int, length 
 		r.currentLen = 1024
 		size = 8192
 	case containerRun:
+		if int64(r.currentDataOffset)+int64(runCount)*interval16Size > int64(len(r.data)) {
+			r.Done(fmt.Errorf("container %d/%d, key %d, had offset %d+%d size, maximum %d",
+				r.currentIdx, r.keys, r.currentKey, r.currentDataOffset, int(runCount)*interval16Size, len(r.data)))
+			return r.Current()
+		}
 		// official format stores runs as start/len, we want to convert, but since
 		// they might be mmapped, we can't write to that memory
 		newRuns := make([]interval16, runCount)
